@@ -148,6 +148,9 @@ type SrvCfg struct {
 	OnClose        func(id int) // harness callback, called inside OnClose
 	NoOnClose      bool
 	Addr           string // default 127.0.0.1:0-ish (we pick a free port)
+	// RouterFirst: the (still empty) mux is attached with Server.Router BEFORE the routes are registered on it; Run
+	// comes last either way
+	RouterFirst bool
 }
 
 // Srv is a running gldap server plus the monitor's view of it.
@@ -240,8 +243,10 @@ func newSrv(cfg SrvCfg) (*Srv, error) {
 // Start runs the server (routes must already be registered on s.Mux) and waits
 // until it accepts connections.
 func (s *Srv) Start(cfg SrvCfg) error {
-	if err := s.S.Router(s.Mux); err != nil {
-		return err
+	if !cfg.RouterFirst {
+		if err := s.S.Router(s.Mux); err != nil {
+			return err
+		}
 	}
 	var ropts []gldap.Option
 	if cfg.TLS != nil {
@@ -309,6 +314,11 @@ func startSrv(cfg SrvCfg, register func(m *gldap.Mux)) (*Srv, error) {
 	s, err := newSrv(cfg)
 	if err != nil {
 		return nil, err
+	}
+	if cfg.RouterFirst {
+		if err := s.S.Router(s.Mux); err != nil {
+			return nil, err
+		}
 	}
 	if register != nil {
 		register(s.Mux)
